@@ -90,6 +90,8 @@ def states():
     out.append(dict(id='iam-own-rpc-not-configured', listed=[IAM], ruled=['GetIamPolicy', 'TestIamPermissions'], own_iam=True, legacy=False))
     out.append(dict(id='iam-own-rpc-only-one-configured', listed=[IAM, OPS], ruled=['SetIamPolicy', 'GetOperation'], own_iam=True, legacy=False))
     out.append(dict(id='iam-override-by-second-service', listed=[OPS, IAM, LOC], ruled=list(CANON), own_iam=True, own_svc='Vault', legacy=False))
+    out.append(dict(id='iam-override-by-first-service', listed=[OPS, IAM, LOC], ruled=list(CANON), own_iam=True, own_svc='Vault', own_first=True,
+                    legacy=False))
     out.append(dict(id='legacy-add-iam-methods', listed=[], ruled=[], own_iam=False, legacy=True))
     out.append(dict(id='legacy-add-iam-methods+iam-mixin', listed=[IAM], ruled=BY_API[IAM], own_iam=False, legacy=True))
     out.append(dict(id='no-yaml', listed=None, ruled=[], own_iam=False, legacy=False))
@@ -124,8 +126,9 @@ def build(st, transport):
         meths.append(own)
         svcs = [service('Lib', meths)]
     elif st['own_iam']:
-        # the RPC is declared by a *second* service, after one that declares nothing of the kind
-        svcs.append(service(st['own_svc'], [method('GetVaultBook', Q('GetBookRequest'), Q('Book'), http=('get', '/v1/{name=vaults/*}')), own]))
+        # the RPC is declared by another service, after (or, own_first, before) one that declares nothing of the kind
+        other = service(st['own_svc'], [method('GetVaultBook', Q('GetBookRequest'), Q('Book'), http=('get', '/v1/{name=vaults/*}')), own])
+        svcs = [other] + svcs if st.get('own_first') else svcs + [other]
     f = file('acme/mix/v1/mix.proto', P, messages=msgs, services=svcs)
     param = f'transport={transport},autogen-snippets=false'
     of = None
